@@ -13,9 +13,9 @@ Import ListNotations.
 Definition driver (s : state) (q w : nat) : Prop :=
   q < nport s /\ pwire s q = w /\ oprim s (pparent s q) = true /\ drives (pkind s q) = true.
 
-(* at most one driver per wire, and it is the registered source *)
+(* an ORDINARY wire has at most one driver, and it is the registered source *)
 Definition single_driver (s : state) : Prop :=
-  forall w q, w < nwire s -> (driver s q w <-> wsource s w = Some q).
+  forall w q, w < nwire s -> wbidir s w = false -> (driver s q w <-> wsource s w = Some q).
 
 (* children tables: distinct names, and a block is the child of p under name n exactly when its own
    parent / name attributes say so (hence no two blocks share (parent, name)) *)
@@ -38,6 +38,13 @@ Definition reader_b (s : state) (w q : nat) : bool :=
   Nat.eqb (pwire s q) w && oprim s (pparent s q) && reads (pkind s q).
 Definition sinks_exact (s : state) : Prop :=
   forall w, w < nwire s -> wsinks s w = filter (reader_b s w) (seq 0 (nport s)).
+(* a BidirWire keeps ALL its drivers (in creation order) in `sources` and never gets a `source`; an ordinary wire has no `sources` *)
+Definition driver_b (s : state) (w q : nat) : bool :=
+  Nat.eqb (pwire s q) w && oprim s (pparent s q) && drives (pkind s q).
+Definition sources_exact (s : state) : Prop :=
+  forall w, w < nwire s ->
+    wsources s w = (if wbidir s w then filter (driver_b s w) (seq 0 (nport s)) else []) /\
+    (wbidir s w = true -> wsource s w = None).
 
 (* every created wire is in its parent's table under its own name *)
 Definition registered (s : state) (w : nat) : Prop := tget (owires s (wparent s w)) (wname s w) = Some w.
@@ -60,9 +67,9 @@ Definition conflict_of (s : state) (o : op) : option conflict :=
   match o with
   | NewLogic (Some p) n _ => if tmem (ochildren s p) n then Some (CChild p n) else None
   | NewLogic None _ _ => None
-  | NewWire p n _ => if tmem (owires s p) n then Some (CWire p n) else None
+  | NewWire p n _ | NewBidir p n _ => if tmem (owires s p) n then Some (CWire p n) else None
   | AddIn _ _ _ => None
-  | AddOut o _ w | AddInOut o _ w => if oprim s o && is_some (wsource s w) then Some (CDriver w) else None
+  | AddOut o _ w | AddInOut o _ w => if oprim s o && negb (wbidir s w) && is_some (wsource s w) then Some (CDriver w) else None
   | Rename w n => wire_conflict s w (wparent s w) n
   | Reparent w p => wire_conflict s w p (wname s w)
   | ReparentAndRename w p n => wire_conflict s w p n
@@ -91,7 +98,13 @@ Inductive below (s : state) : nat -> nat -> Prop :=
 | below_refl : forall o, below s o o
 | below_step : forall o n c o', In (n, c) (ochildren s o) -> below s c o' -> below s o o'.
 
-Definition undriven (s : state) (q : nat) : Prop := wsource s (pwire s q) = None.
+(* what checkIntegrity can see: wire.getSource() yields no driving port -- an ordinary wire without source, or ANY
+   BidirWire (BidirWire.getSource reads `self.source`, an attribute a BidirWire never has: AttributeError) *)
+Definition undriven (s : state) (q : nat) : Prop := wbidir s (pwire s q) = true \/ wsource s (pwire s q) = None.
+(* what the property means by "a wire that no block drives" *)
+Definition no_driver (s : state) (q : nat) : Prop :=
+  if wbidir s (pwire s q) then wsources s (pwire s q) = [] else wsource s (pwire s q) = None.
+Definition on_bidir (s : state) (q : nat) : Prop := wbidir s (pwire s q) = true.
 (* the source port of q's wire is in none of inPorts / outPorts / inOutPorts of its own block (checkPort) *)
 Definition stray_source (s : state) (q : nat) : Prop :=
   exists sp, wsource s (pwire s q) = Some sp /\
@@ -104,13 +117,15 @@ Definition tree_ok (s : state) : Prop :=
   forall p n c, p < nobj s -> In (n, c) (ochildren s p) -> p < c /\ c < nobj s.
 
 (* ---------------------------------------------------------------- executable transcriptions (evaluated on real states) *)
-Definition driver_b (s : state) (w q : nat) : bool :=
-  Nat.eqb (pwire s q) w && oprim s (pparent s q) && drives (pkind s q).
 Definition single_driver_b (s : state) : bool :=
-  forallb (fun w => list_eqb Nat.eqb (filter (driver_b s w) (seq 0 (nport s)))
+  forallb (fun w => wbidir s w || list_eqb Nat.eqb (filter (driver_b s w) (seq 0 (nport s)))
                             (match wsource s w with Some q => [q] | None => [] end))
           (seq 0 (nwire s)).
 
+Definition sources_exact_b (s : state) : bool :=
+  forallb (fun w => list_eqb Nat.eqb (wsources s w) (if wbidir s w then filter (driver_b s w) (seq 0 (nport s)) else []) &&
+                    (negb (wbidir s w) || negb (is_some (wsource s w))))
+          (seq 0 (nwire s)).
 Definition sinks_exact_b (s : state) : bool :=
   forallb (fun w => list_eqb Nat.eqb (wsinks s w) (filter (reader_b s w) (seq 0 (nport s)))) (seq 0 (nwire s)).
 
@@ -158,7 +173,8 @@ Fixpoint anc_b (fuel : nat) (s : state) (h o : nat) : bool :=
 (* some port in the hierarchy of h is attached to a wire that no block drives *)
 Definition undriven_port_b (s : state) (h : nat) : bool :=
   existsb (fun o => anc_b (nobj s) s h o &&
-                    existsb (fun q => negb (is_some (wsource s (pwire s q)))) (oin s o ++ oout s o))
+                    existsb (fun q => if wbidir s (pwire s q) then match wsources s (pwire s q) with [] => true | _ => false end
+                                      else negb (is_some (wsource s (pwire s q)))) (oin s o ++ oout s o))
           (seq 0 (nobj s)).
 
 (* ---------------------------------------------------------------- side conditions used by the theorems *)
@@ -167,7 +183,7 @@ Definition valid_op (s : state) (o : op) : Prop :=
   match o with
   | NewLogic (Some p) _ _ => p < nobj s
   | NewLogic None _ _ => True
-  | NewWire p _ _ => p < nobj s
+  | NewWire p _ _ | NewBidir p _ _ => p < nobj s
   | AddIn o _ w | AddOut o _ w | AddInOut o _ w => o < nobj s /\ w < nwire s
   | Rename w _ => w < nwire s
   | Reparent w p | ReparentAndRename w p _ => w < nwire s /\ p < nobj s
